@@ -7,6 +7,12 @@ use core::sync::atomic::{AtomicBool, AtomicUsize, Ordering};
 
 const QCAP: usize = 1 << 17;
 static Q_ON: AtomicBool = AtomicBool::new(false);
+static POISON: AtomicBool = AtomicBool::new(false);
+/// scribble over quarantined blocks (enabled in the forked child of the engines that run one scenario per
+/// process; the in-process thread engines keep the blocks untouched)
+pub fn set_poison(on: bool) {
+    POISON.store(on, Ordering::SeqCst);
+}
 static Q_N: AtomicUsize = AtomicUsize::new(0);
 static mut Q_BUF: [(usize, usize, usize); QCAP] = [(0, 0, 0); QCAP];
 
@@ -25,7 +31,7 @@ pub fn push(ptr: usize, size: usize, align: usize) -> bool {
     }
     // the block stays allocated until the run is over, so a use-after-free would read perfectly intact data:
     // scribble over it (what MALLOC_PERTURB_ does for a real free), then dangling payloads show in the canaries
-    if size > 0 {
+    if size > 0 && POISON.load(Ordering::Relaxed) {
         unsafe { core::ptr::write_bytes(ptr as *mut u8, 0xDD, size) };
     }
     let i = Q_N.fetch_add(1, Ordering::Relaxed);
